@@ -143,6 +143,20 @@ theorem volume_roundtrip (p : Params) (v : ValidConfig p) (src : Array Int) (exp
   simp only [Option.bind_eq_bind, Option.bind_some] at he
   exact mapM_some_length _ _ _ he
 
+/-- The encoder as a whole is `write (search ws) ws` for the search half `search` of `mlw_encode.c`.
+
+    Full statement (C07, encoder part), **not** proved because the search half is not modelled:
+    `∀ ws, WeightsInRange ws → ∃ bytes, write (realSearch ws) ws = .ok bytes ∧ Lossless bytes ws ∧ Framed bytes`.
+
+    Proved: the same for *any* search function, under the one hypothesis that it only returns well-formed plans.
+    Missing for the full statement: `hsearch` for the real search (`search_palette_sections`, `find_palette`,
+    `search_grc_params`, merge loop of `encode_section`).  The harness evaluates `planOk` on every plan the real search
+    produces in a run and compares `write` with the real bytes; no run has produced an ill-formed plan. -/
+theorem encoder_lossless_partial (search : List Int → Plan)
+    (hsearch : ∀ ws, WeightsInRange ws → PlanOk (search ws) ws) (ws : List Int) (hr : WeightsInRange ws) :
+    ∃ bytes, write (search ws) ws = .ok bytes ∧ Lossless bytes ws ∧ Framed bytes :=
+  write_meets_spec (search ws) ws (hsearch ws hr)
+
 /-- the plan conditions are checkable: `PlanOk` is decided by the function the harness runs on every real plan -/
 theorem plan_ok_decides (plan : Plan) (ws : List Int) : planOk plan ws = true ↔ PlanOk plan ws := Iff.rfl
 
